@@ -269,6 +269,8 @@ def main(argv=None):
         try:
             from . import fuzzstage
             extra["atheris"] = fuzzstage.run(mod, pid, vseed, work, agg)
+            for cname in extra["atheris"].get("vacuous", []):
+                errors.append("coverage-guided stage of clause %s executed no valid case (vacuous)" % cname)
         except Exception as e:  # noqa: BLE001
             extra["atheris"] = {"status": "skipped", "reason": "%s: %s" % (type(e).__name__, e)}
     shutil.rmtree(work, ignore_errors=True)
